@@ -370,7 +370,11 @@ def check(prop, tier):
         # they are started first and joined after the Kani and Verus stages, so that their wall time overlaps with the solvers'
         if nsel:
             native_pool = cf.ThreadPoolExecutor(max_workers=1)
-            native_future = native_pool.submit(lambda: [run_native(scr, u, tier, seed) for u in nsel])
+            # two stand-ins at a time: their cargo builds serialise on the target-directory lock, their test runs overlap
+            def _run_natives():
+                with cf.ThreadPoolExecutor(max_workers=int(os.environ.get("VERIF_NATIVE_JOBS", "2"))) as npool:
+                    return list(npool.map(lambda u: run_native(scr, u, tier, seed), nsel))
+            native_future = native_pool.submit(_run_natives)
         # ---------------- Kani ----------------
         if sel:
             pkgs = {}
